@@ -781,7 +781,7 @@ def corpus():
 
 def run(ctx):
     rng = ctx.rng
-    n = 260 if ctx.tier == "quick" else 5000
+    n = 220 if ctx.tier == "quick" else 5000
     if ctx.replay:
         rp = json.load(open(ctx.replay))
         cases = [rp["case"]]
